@@ -1,5 +1,5 @@
 import BM.Gen.SrcPins
-/- WRITTEN by tools/repin.py from /repo at 05f55d5 (committed; re-checked against the regenerated
+/- WRITTEN by tools/repin.py from /repo at da0a256 (committed; re-checked against the regenerated
    BM/Gen/SrcPins.lean on every run).  The units of source the model and the proofs of C09 were
    written against: a change to one of them breaks `C09_source_pin`, and with it the obligations of
    this property only. -/
